@@ -59,6 +59,13 @@ Definition grow (d : list (option byte)) (e : N) : list (option byte) :=
 Definition write (d : list (option byte)) (off : N) (payload : bytes) : list (option byte) :=
   take off d ++ map Some payload ++ drop (off + len payload) d.
 
+(* self.sections.iter().map(|s| s.end).max(): None for an empty vector *)
+Fixpoint sec_max (l : list range) : option N :=
+  match l with
+  | [] => None
+  | r :: t => Some (match sec_max t with Some m => N.max (r_end r) m | None => r_end r end)
+  end.
+
 Inductive add_res := AddOk (b : buf) | AddErr (v : verdict) | AddPanic.
 
 Definition add (b : buf) (f : frag) : add_res :=
@@ -74,7 +81,15 @@ Definition add (b : buf) (f : frag) : add_res :=
   match (match b_end b with
          | Some prev =>
              if (prev <? e) || (negb (f_mf f) && negb (e =? prev)) then Some (VConflict prev e) else None
-         | None => None
+         | None =>
+             (* else if false == more_fragments: the end must not be before already received data *)
+             if negb (f_mf f) then
+               match sec_max (b_sections b) with
+               | Some received_end =>
+                   if e <? received_end then Some (VConflict received_end e) else None
+               | None => None
+               end
+             else None
          end) with
   | Some v => AddErr v
   | None =>
